@@ -401,6 +401,13 @@ def collectIter (next : Nat → M (Option Nat)) (fuel : Nat) : String :=
 
 def handleQ (st : St) (k : Nat) (q : String) (args : List String) : String :=
   let a (i : Nat) : Nat := nat! (args.getD i "0")
+  -- `Debug::fmt` must not panic; its text is not modelled
+  if q == "debug" then
+    (match getSlot st k with
+     | .err _ => "E" | .empty => "bad-slot"
+     | .qwt .. => "bad-op" | .hqwt .. => "bad-op" | .wt .. => "bad-op"
+     | _ => "U|U")
+  else
   match getSlot st k with
   | .err _ => "E"
   | .empty => "bad-slot"
